@@ -163,6 +163,11 @@ func (e *EDNS) ServeDNS(ctx context.Context, ch *middleware.Chain) {
 	// (IsEdns0): any other OPT would ride along untouched, its client
 	// subnet, cookie and private options forwarded to every authority.
 	dropShadowedOPT(req)
+	// ... and an OPT the client put into the answer or authority section
+	// of its query is not "the" OPT either: nothing below would strip its
+	// subnet, cookie or private options, and the resolver and forwarder
+	// copy those sections into every upstream query.
+	dnsutil.ClearStrayOPT(req)
 
 	noedns := req.IsEdns0() == nil
 	if noedns {
